@@ -247,6 +247,17 @@ func VerifC23Inflight(ctx context.Context, cancel context.CancelFunc) (update fu
 
 const VerifC23InvalidateLinger = invalidateLinger
 
+// HoldBucket locks the mutex of bucket `key` (the trim goroutine blocks on it as soon as it looks at the bucket) and
+// returns the function that unlocks it. Used to order "a waiter is parked" before "trimming released memory".
+func (v *VerifC23) HoldBucket(stepSec int64, key string) (release func()) {
+	_, b := v.bucket(stepSec, key)
+	if b == nil {
+		return func() {}
+	}
+	b.mu.Lock()
+	return b.mu.Unlock
+}
+
 // VerifC23CacheKey returns the real cache key of a query whose only filter is "string top in `stop`".
 func VerifC23CacheKey(stop []string) string {
 	q := &queryBuilder{}
